@@ -70,7 +70,7 @@ def backend_rows(kind, rows, n):
         return list(rows)
     if kind == "slice":
         return sorted(rows)
-    return list(range(min(rows), max(rows) + 1))  # arrays: slice(min, max + 1), refined in memory
+    return list(range(min(rows), max(rows) + 1))  # arrays and point lists: slice(min, max + 1), refined in memory
 
 
 def geom_of(im, rpc, flen=None):
